@@ -7,8 +7,9 @@ import itertools
 import re
 from typing import Any, Callable, Iterator
 
-from ..astutil import Locals, call_name, calls_in, cfg_of, constructs_error, names_in, norm, receivers, region, stmt_of, where
-from ..cfg import CFG, EXIT
+from ..astutil import (Locals, call_name, calls_in, cfg_of, constructs_error, local_names, names_in, norm, receivers, region, resolved_text,
+                       stmt_of, where)
+from ..cfg import CFG, EXIT, walk_own
 from ..core import Report
 
 LEVEL = ("structural clauses on the region of merge_properties / _process_properties / _process_models, decided on paths (small symbolic "
@@ -17,7 +18,9 @@ LEVEL = ("structural clauses on the region of merge_properties / _process_proper
          "smaller enum wins and both subset directions are tried, incompatible pairs end in an error, the enum subset decision looks at "
          "values; requiredness is a disjunction, inline members' `required` lists are unioned on every path and reach every inserted "
          "property; all members contribute (Reference and inline, required and optional properties of a parent); parent properties are "
-         "not mutated; every model of a round is processed, re-queued or reported, self-reference is diverted (separator-anchored test).")
+         "not mutated; every model of a round is processed, re-queued or reported, self-reference is diverted (separator-anchored test). "
+         "The allOf loop, the building loop, the insertions and the promotion of inherited properties are found by what they do, in "
+         "_process_properties, a nested function or a helper that is handed its state; variables by role, never by name.")
 
 # the order of the property statement: integer over number, formatted string over string, enum over its base type, anything over Any
 WIDTH = {"AnyProperty": 3, "FloatProperty": 2, "StringProperty": 2, "IntProperty": 1}
@@ -374,33 +377,97 @@ def check_no_parent_mutation(rep: Report, ctx: Any, rid: str) -> None:
     """property objects inherited from a referenced parent are shared: never mutated while composing a child (C15 / C02)"""
     ix = ctx.py
     pp = ix.func("model_property._process_properties")
-    _, branch = allof_branch(rep, pp)
-    muts = []
-    loop_vars = {norm(n.target) for n in ast.walk(pp.node) if isinstance(n, ast.For)}
-    for n in ast.walk(pp.node):
-        if isinstance(n, ast.Call) and call_name(n) in ("object.__setattr__", "setattr") and n.args and norm(n.args[0]) in loop_vars:
-            muts.append(n)
-        if isinstance(n, (ast.Assign, ast.AugAssign)):
-            tg = n.targets if isinstance(n, ast.Assign) else [n.target]
-            if any(isinstance(t, ast.Attribute) and norm(t.value) in loop_vars for t in tg):
-                muts.append(n)
-        if isinstance(n, ast.Call) and isinstance(n.func, ast.Attribute) and n.func.attr.startswith("set_") and norm(n.func.value) in loop_vars:
-            muts.append(n)
+    funcs = _unique(region(ix, pp))
+    found = _find_allof_loop(pp, funcs)
+    decision = _find_member_decision(found[1], found[2]) if found else None
+    at = where(found[0], decision[0]) if found and decision else where(pp, pp.node)  # where the rule looks when there is nothing to report
+    muts: list[tuple[Any, ast.AST]] = []
+    n_each = 0
+    # every function of the region is looked at on its own: what it iterates over (statement loops and comprehensions alike) are the
+    # property objects of the composed model, inherited ones included
+    for g in funcs:
+        each = {norm(n.target) for n in ast.walk(g.node) if isinstance(n, (ast.For, ast.AsyncFor, ast.comprehension))}
+        n_each += len(each)
+        for n in ast.walk(g.node):
+            if isinstance(n, ast.Call) and call_name(n) in ("object.__setattr__", "setattr") and n.args and norm(n.args[0]) in each:
+                muts.append((g, n))
+            if isinstance(n, (ast.Assign, ast.AugAssign, ast.AnnAssign)):
+                tg = n.targets if isinstance(n, ast.Assign) else [n.target]
+                if any(isinstance(t, ast.Attribute) and norm(t.value) in each for t in tg):
+                    muts.append((g, n))
+            if isinstance(n, ast.Call) and isinstance(n.func, ast.Attribute) and n.func.attr.startswith("set_") and norm(n.func.value) in each:
+                muts.append((g, n))
+    rep.require(n_each, "iteration over property objects in the region of _process_properties")
+    texts = sorted({norm(m)[:60] for _, m in muts})
     rep.check(not muts, rid, "_process_properties::parent-properties-not-mutated",
-              f"a property object shared with the referenced parent model is mutated while composing the child ({[norm(m)[:60] for m in muts]}): "
-              "the change leaks into the parent class", where(pp, muts[0]) if muts else where(pp, branch),
-              lhs=[norm(m)[:60] for m in muts], rhs="no mutation of inherited property objects")
+              f"a property object shared with the referenced parent model is mutated while composing the child ({texts}): "
+              "the change leaks into the parent class", where(*muts[0]) if muts else at,
+              lhs=texts, rhs="no mutation of inherited property objects")
 
 
-def allof_branch(rep: Report, pp: Any) -> tuple[ast.For, ast.If]:
-    """the loop over data.allOf and its `isinstance(<member>, oai.Reference)` statement (the member variable may have any name)"""
-    loops = [n for n in ast.walk(pp.node) if isinstance(n, ast.For) and "data.allOf" in norm(n.iter)]
-    rep.require(loops, "loop over data.allOf")
-    loop = loops[0]
-    member = norm(loop.target)
-    branch = next((s for s in loop.body if isinstance(s, ast.If) and f"isinstance({member}, oai.Reference)" in norm(s.test)), None)
-    rep.require(branch is not None, "allOf reference branch")
-    return loop, branch
+def _unique(fs: list[Any]) -> list[Any]:
+    """functions of a region, a nested function only through the function that contains it (its statements are walked with that one)"""
+    once = list({f.qual: f for f in fs}.values())
+    return [f for f in once if not any(_encloses(o, f) for o in once)]
+
+
+def _encloses(outer: Any, f: Any) -> bool:
+    p = f.parent
+    while p is not None:
+        if p.qual == outer.qual:
+            return True
+        p = p.parent
+    return False
+
+
+def _find_allof_loop(pp: Any, funcs: list[Any]) -> tuple[Any, ast.For, str] | None:
+    """(function, loop, member variable): the loop over the members of data.allOf - directly or over a local that holds them, in
+    _process_properties or in a function of its region that is handed the schema - whatever the member variable is called"""
+    for f in [pp] + [g for g in funcs if g is not pp]:
+        pat = r"\bdata\.allOf\b" if f is pp else r"\b\w+\.allOf\b"
+        for n in ast.walk(f.node):
+            if isinstance(n, ast.For) and re.search(pat, resolved_text(n.iter, f.node)):
+                return f, n, norm(n.target)
+    return None
+
+
+def _allof_loop(rep: Report, pp: Any, funcs: list[Any]) -> tuple[Any, ast.For, str]:
+    found = _find_allof_loop(pp, funcs)
+    rep.require(found is not None, "loop over data.allOf")
+    assert found is not None
+    return found
+
+
+def _find_member_decision(loop: ast.For, member: str) -> tuple[ast.If, bool] | None:
+    """the statement of the allOf loop that decides between Reference and inline members, and whether its test holds for a Reference
+    (`isinstance(m, Reference)` or `not isinstance(m, Reference)` with the branches exchanged are the same decision)"""
+
+    def tests_for(cls: str) -> Callable[[ast.AST], bool]:
+        return lambda e: isinstance(e, ast.Call) and call_name(e) == "isinstance" and len(e.args) == 2 and norm(e.args[0]) == member and \
+            {norm(t).rsplit(".", 1)[-1] for t in (e.args[1].elts if isinstance(e.args[1], ast.Tuple) else [e.args[1]])} == {cls}
+
+    for s in ast.walk(loop):
+        if isinstance(s, ast.If):
+            pol = _polarity(s.test, tests_for("Reference"))
+            if pol is not None:
+                return s, pol
+            pol = _polarity(s.test, tests_for("Schema"))  # a member is a Reference or an inline Schema: the same decision, seen from the other side
+            if pol is not None:
+                return s, not pol
+    return None
+
+
+def _member_decision(rep: Report, loop: ast.For, member: str) -> tuple[ast.If, bool]:
+    found = _find_member_decision(loop, member)
+    rep.require(found is not None, "decision between Reference and inline members in the allOf loop")
+    assert found is not None
+    return found
+
+
+def allof_branch(rep: Report, pp: Any, funcs: list[Any] | None = None) -> tuple[ast.For, ast.If]:
+    """the loop over data.allOf and the statement deciding `isinstance(<member>, oai.Reference)` (the member variable may have any name)"""
+    _, loop, member = _allof_loop(rep, pp, funcs or [pp])
+    return loop, _member_decision(rep, loop, member)[0]
 
 
 # ======================================================================================================================
@@ -545,7 +612,7 @@ def _merge_rules(rep: Report, ctx: Any, mp: Any) -> None:
                       "a merge keeps the class of an argument that is not known to be the narrower one (integer over number, formatted string over "
                       "string, enum over its base type, anything over Any): the composed type depends on member order or is too wide",
                       where(mf.f, mf.f.node), lhs=sorted(set(bad), key=lambda x: (len(x), x))[:4], rhs="the discarded argument is an instance of an equal or wider class")
-    rep.floor("mirrored_type_pairs", n_pairs, 4)
+    rep.floor("mirrored_type_pairs", n_pairs, 5)
 
     # ---- incompatible types end in a diagnostic ----
     none_env = [(env, r) for env, r in mpf.runs if not any(env.values())]
@@ -672,25 +739,259 @@ def _arm_entries(cfg: CFG, node: ast.If, positive: bool) -> tuple[object, object
     return (true_entry, false_entry) if positive else (false_entry, true_entry)
 
 
-def allof_arms(rep: Report, pp: Any, cfg: CFG) -> tuple[ast.For, str, object, object]:
-    """the loop over data.allOf, its member variable, and where control goes for a Reference member / for an inline member"""
-    loops = [n for n in ast.walk(pp.node) if isinstance(n, ast.For) and "data.allOf" in norm(n.iter)]
-    rep.require(loops, "loop over data.allOf")
-    loop = loops[0]
-    member = norm(loop.target)
+def allof_arms(rep: Report, loop: ast.For, member: str, cfg: CFG) -> tuple[object, object]:
+    """where control goes in the allOf loop for a Reference member / for an inline member"""
+    decision, pol = _member_decision(rep, loop, member)
+    return _arm_entries(cfg, decision, pol)
 
-    def is_ref_test(e: ast.AST) -> bool:
-        return isinstance(e, ast.Call) and call_name(e) == "isinstance" and len(e.args) == 2 and norm(e.args[0]) == member and \
-            norm(e.args[1]).rsplit(".", 1)[-1] == "Reference"
 
-    for s in ast.walk(loop):
-        if isinstance(s, ast.If):
-            pol = _polarity(s.test, is_ref_test)
-            if pol is not None:
-                ref_entry, inline_entry = _arm_entries(cfg, s, pol)
-                return loop, member, ref_entry, inline_entry
-    rep.require(False, "decision between Reference and inline members in the allOf loop")
-    raise AssertionError
+def _own_nodes(fn: ast.AST) -> Iterator[ast.AST]:
+    """the nodes that run as part of fn itself: nested function and class definitions are other code"""
+    stack = list(ast.iter_child_nodes(fn))
+    while stack:
+        n = stack.pop()
+        yield n
+        if not isinstance(n, (ast.FunctionDef, ast.AsyncFunctionDef, ast.ClassDef)):
+            stack.extend(ast.iter_child_nodes(n))
+
+
+def _is_store(n: ast.AST, own_locals: set[str]) -> bool:
+    """`<mapping>[key] = value` into a mapping that is not a local of the storing function (own_locals), i.e. one that outlives the call"""
+    if not isinstance(n, (ast.Assign, ast.AnnAssign, ast.AugAssign)):
+        return False
+    tg = n.targets if isinstance(n, ast.Assign) else [n.target]
+    return any(isinstance(t, ast.Subscript) and isinstance(t.value, ast.Name) and t.value.id not in own_locals for t in tg)
+
+
+def _stores_outward(g: Any) -> bool:
+    """g puts something into a mapping it was handed as an argument or sees in an enclosing scope"""
+    mine = local_names(g.node)
+    return any(_is_store(n, mine) for n in _own_nodes(g.node))
+
+
+def _seen_as(pp: Any, g: Any, names: set[str]) -> set[str]:
+    """how a function of the region refers to the given variables of _process_properties: by the same name when it is nested in it (a
+    closure), by the parameter they are passed as otherwise"""
+    if g.qual == pp.qual:
+        return set(names)
+    out: set[str] = set()
+    if _encloses(pp, g):
+        out |= set(names) - local_names(g.node) - {p.arg for p in g.params}
+    pos = [a.arg for a in [*g.node.args.posonlyargs, *g.node.args.args]]
+    for c in calls_in(pp.node):
+        if call_name(c).rsplit(".", 1)[-1] == g.name:
+            out |= {pos[i] for i, a in enumerate(c.args) if i < len(pos) and isinstance(a, ast.Name) and a.id in names}
+            out |= {kw.arg for kw in c.keywords if kw.arg and isinstance(kw.value, ast.Name) and kw.value.id in names}
+    return out
+
+
+def _in_caller(pp: Any, g: Any, names: set[str]) -> set[str]:
+    """the other direction of _seen_as: what _process_properties calls the variables that function g of its region knows by these names"""
+    if g.qual == pp.qual:
+        return set(names)
+    out: set[str] = set()
+    if _encloses(pp, g):
+        out |= set(names) - local_names(g.node) - {p.arg for p in g.params}
+    pos = [a.arg for a in [*g.node.args.posonlyargs, *g.node.args.args]]
+    for c in calls_in(pp.node):
+        if call_name(c).rsplit(".", 1)[-1] == g.name:
+            out |= {a.id for i, a in enumerate(c.args) if i < len(pos) and pos[i] in names and isinstance(a, ast.Name)}
+            out |= {kw.value.id for kw in c.keywords if kw.arg in names and isinstance(kw.value, ast.Name)}
+    return out
+
+
+def _req_atoms(e: ast.AST, req_names: set[str]) -> list[ast.Compare]:
+    """the sub-tests `<x> in <required set>` / `<x> not in <required set>` of an expression"""
+    return [c for c in ast.walk(e) if isinstance(c, ast.Compare) and len(c.ops) == 1 and isinstance(c.ops[0], (ast.In, ast.NotIn))
+            and norm(c.comparators[0]) in req_names]
+
+
+def _over_required(it: ast.expr, req_names: set[str]) -> bool:
+    """iterating `it` yields members of the required set only: the set itself, a re-ordering / copy of it, an intersection with it"""
+    if isinstance(it, ast.Name):
+        return it.id in req_names
+    if isinstance(it, ast.Call) and call_name(it) in ("sorted", "list", "tuple", "set", "frozenset", "iter", "reversed") and it.args:
+        return _over_required(it.args[0], req_names)
+    if isinstance(it, ast.BinOp) and isinstance(it.op, ast.BitAnd):
+        return _over_required(it.left, req_names) or _over_required(it.right, req_names)
+    if isinstance(it, ast.Call) and isinstance(it.func, ast.Attribute) and it.func.attr == "intersection":
+        return any(_over_required(x, req_names) for x in [it.func.value, *it.args])
+    return False
+
+
+def _implies_required(test: ast.expr, outcome: bool, req_names: set[str]) -> bool:
+    """can `test` have this outcome only when some `<x> in <required set>` holds?  Decided on truth values (negations, `not in`, and / or,
+    exchanged branches are all the same decision), not on the text of the test."""
+    atoms = _req_atoms(test, req_names)
+    env = {norm(ast.Compare(left=c.left, ops=[ast.In()], comparators=c.comparators)): False for c in atoms}
+    return bool(atoms) and outcome not in _values_of_test(test, env)
+
+
+def _stmt_only_when(cfg: CFG, fn: ast.AST, s: ast.stmt, implies: Callable[[ast.expr, bool], bool]) -> bool:
+    """statement s runs only after a decision with an outcome that `implies` accepts: it lies on that side of the decision and cannot be
+    reached from the other side without taking the decision again (nested if, early continue / return and swapped branches alike)"""
+    for d in ast.walk(fn):
+        if isinstance(d, ast.If):
+            for outcome in (True, False):
+                if implies(d.test, outcome):
+                    entry, other = _arm_entries(cfg, d, outcome)
+                    if entry is not other and s in cfg.reachable_from(entry, avoid=lambda n: n is d) and \
+                            s not in cfg.reachable_from(other, avoid=lambda n: n is d):
+                        return True
+    return False
+
+
+def _only_when_required(f: Any, cfg: CFG, e: ast.AST, req_names: set[str]) -> bool:
+    """expression e of function f is evaluated only when `<x> in <required set>` holds: inside its statement (conditional expression,
+    comprehension filter, `and`) or by where its statement sits in the flow of control"""
+    if not req_names:
+        return False
+
+    def implies(test: ast.expr, outcome: bool) -> bool:
+        return _implies_required(test, outcome, req_names)
+
+    parents = {id(c): p for p in ast.walk(f.node) for c in ast.iter_child_nodes(p)}
+    s = stmt_of(f.node, e)
+    n, in_statement = e, True
+    while id(n) in parents:
+        p = parents[id(n)]
+        in_statement = in_statement and n is not s
+        if in_statement:
+            if isinstance(p, ast.IfExp) and ((n is p.body and implies(p.test, True)) or (n is p.orelse and implies(p.test, False))):
+                return True
+            if isinstance(p, (ast.ListComp, ast.SetComp, ast.GeneratorExp, ast.DictComp)) and not isinstance(n, ast.comprehension) and \
+                    any(_over_required(g.iter, req_names) or any(implies(c, True) for c in g.ifs) for g in p.generators):
+                return True
+            if isinstance(p, ast.BoolOp) and isinstance(p.op, ast.And) and any(implies(v, True) for v in p.values[:p.values.index(n)]):
+                return True
+        elif isinstance(p, (ast.For, ast.AsyncFor)) and n in p.body and _over_required(p.iter, req_names):
+            return True  # the body of a loop over the required names runs for required names only
+        n = p
+    return s is not None and _stmt_only_when(cfg, f.node, s, implies)
+
+
+def _read_before_rebound(cfg: CFG, s: ast.stmt, names: set[str]) -> bool:
+    """after statement s, is one of the names it binds read before it is bound again (by the next iteration's loop header, say)?"""
+    seen: set[int] = set()
+    stack = list(cfg.succ.get(s, ()))
+    while stack:
+        n = stack.pop()
+        if id(n) in seen or not isinstance(n, ast.stmt):
+            continue
+        seen.add(id(n))
+        own = list(ast.walk(n)) if isinstance(n, (ast.FunctionDef, ast.AsyncFunctionDef, ast.ClassDef)) else list(walk_own(n))
+        if names & {x.id for x in own if isinstance(x, ast.Name) and isinstance(x.ctx, ast.Load)}:
+            return True
+        if names <= {x.id for x in own if isinstance(x, ast.Name) and isinstance(x.ctx, ast.Store)}:
+            continue
+        stack.extend(cfg.succ.get(n, ()))
+    return False
+
+
+def _value_is_used(f: Any, cfg: CFG, e: ast.AST) -> bool:
+    """the value of expression e goes somewhere: it is not thrown away as an expression statement, and when it is bound to a local that
+    local is read before it is bound again (a copy made after the last use of the variable changes nothing)"""
+    s = stmt_of(f.node, e)
+    if s is None or (isinstance(s, ast.Expr) and s.value is e):
+        return False
+    if isinstance(s, (ast.Assign, ast.AnnAssign)):
+        tg = s.targets if isinstance(s, ast.Assign) else [s.target]
+        if all(isinstance(t, (ast.Name, ast.Tuple, ast.List)) for t in tg):
+            return _read_before_rebound(cfg, s, {n.id for t in tg for n in ast.walk(t) if isinstance(n, ast.Name)})
+    return True
+
+
+def _promotions(pp: Any, reg: list[Any], f: Any, req_sets: set[str], cfgs: dict[str, CFG], depth: int) -> list[tuple[ast.AST, bool]]:
+    """the expressions of f whose value is a copy of a property with required=True - `evolve(<p>, required=True)` itself, or the call of a
+    function of the region that hands one back - each with: is it made only when `<name> in <required set>` holds (decided in f, or in
+    the callee).  Where the copy is written (loop body, comprehension, helper) and how the decision is spelled does not matter."""
+    names = _seen_as(pp, f, req_sets)
+    cfg = cfg_of(f, cfgs)
+    out: list[tuple[ast.AST, bool]] = []
+    nodes = list(_own_nodes(f.node))
+    called = {id(c.func) for c in nodes if isinstance(c, ast.Call)}
+    for e in nodes:
+        if isinstance(e, ast.Call):
+            last = call_name(e).rsplit(".", 1)[-1]
+            if last == "evolve" and any(kw.arg == "required" and isinstance(kw.value, ast.Constant) and kw.value.value is True for kw in e.keywords):
+                out.append((e, _only_when_required(f, cfg, e, names)))
+                continue
+        elif isinstance(e, ast.Name) and isinstance(e.ctx, ast.Load) and id(e) not in called:
+            last = e.id  # a function handed on as a value: map(<function>, properties)
+        else:
+            continue
+        if depth > 0:
+            for h in reg:
+                if h.name == last and h.qual not in (f.qual, pp.qual):
+                    inner = [g for x, g in _promotions(pp, reg, h, req_sets, cfgs, depth - 1) if _value_is_used(h, cfg_of(h, cfgs), x)]
+                    if inner:
+                        out.append((e, any(inner) or _only_when_required(f, cfg, e, names)))
+    return out
+
+
+def _disjuncts(e: ast.expr, lc: Locals, depth: int = 2) -> set[str] | None:
+    """the operands of a disjunction, however it is written: `a or b`, `any([a, b])`, a local that holds one of these (None: the
+    expression is not a plain disjunction of operands)"""
+    if isinstance(e, ast.BoolOp) and isinstance(e.op, ast.Or):
+        parts = [_disjuncts(v, lc, depth) for v in e.values]
+    elif isinstance(e, ast.Call) and call_name(e) == "any" and len(e.args) == 1 and isinstance(e.args[0], (ast.List, ast.Tuple, ast.Set)):
+        parts = [_disjuncts(v, lc, depth) for v in e.args[0].elts]
+    elif isinstance(e, ast.Name) and depth > 0 and len(lc.values_of(e.id)) == 1:
+        return _disjuncts(lc.values_of(e.id)[0], lc, depth - 1)  # type: ignore[arg-type]
+    elif isinstance(e, (ast.BoolOp, ast.UnaryOp, ast.IfExp)):
+        return None
+    else:
+        return {norm(e)}
+    return None if any(x is None for x in parts) else set().union(*parts)  # type: ignore[arg-type]
+
+
+def _accumulations(fn: ast.AST, what: str) -> list[tuple[str, ast.stmt | None]]:
+    """(local holding the collection, statement) wherever something computed from `what` is added to a collection: by a method call
+    (`c.update(..what..)`, `c.extend(..what..)`), an augmented assignment (`c |= ..`, `c += ..`) or a re-binding that keeps the old
+    contents (`c = c | ..`, `c = [*c, *..]`)"""
+    out: list[tuple[str, ast.stmt | None]] = []
+    for n in ast.walk(fn):
+        if isinstance(n, ast.Call) and isinstance(n.func, ast.Attribute) and isinstance(n.func.value, ast.Name) and n.func.attr in ("update", "extend") \
+                and any(what in norm(a) for a in n.args):
+            out.append((n.func.value.id, stmt_of(fn, n)))
+        elif isinstance(n, ast.AugAssign) and isinstance(n.target, ast.Name) and what in norm(n.value):
+            out.append((n.target.id, n))
+        elif isinstance(n, (ast.Assign, ast.AnnAssign)) and n.value is not None and what in norm(n.value):
+            for t in (n.targets if isinstance(n, ast.Assign) else [n.target]):
+                if isinstance(t, ast.Name) and t.id in names_in(n.value):
+                    out.append((t.id, n))
+    return out
+
+
+def _impossible_outcomes(test: ast.expr, what: str) -> set[bool]:
+    """the outcomes `test` cannot have while the attribute `what` holds something (is neither None nor empty)"""
+    if not what or what not in norm(test):
+        return set()
+    env = {what: True, f"{what} is None": False, f"{what} == None": False, f"{what} == {{}}": False, f"{what} == []": False,
+           f"len({what}) == 0": False, f"len({what}) > 0": True, f"len({what})": True}
+    return {True, False} - _values_of_test(test, env)
+
+
+def _bypasses(cfg: CFG, src: object, dst: object, through: list[Any], adds_what: str) -> bool:
+    """is there a path src ->* dst that passes none of the `through` statements - other than by an outcome of a decision that is only
+    possible when `adds_what` is empty or absent (then the statements would have added nothing)?"""
+    seen, stack = {id(src)}, [src]
+    while stack:
+        n = stack.pop()
+        if n is dst:
+            return True
+        if any(n is t for t in through):
+            continue
+        skip: set[int] = set()
+        if isinstance(n, ast.If) and adds_what:
+            t_entry, f_entry = _arm_entries(cfg, n, True)
+            if t_entry is not f_entry:
+                skip = {id(t_entry if v else f_entry) for v in _impossible_outcomes(n.test, adds_what)}
+        for nx in cfg.succ.get(n, ()):
+            if id(nx) not in skip and id(nx) not in seen:
+                seen.add(id(nx))
+                stack.append(nx)
+    return False
 
 
 def _required_and_members(rep: Report, ctx: Any, cfgs: dict[str, CFG]) -> None:
@@ -703,14 +1004,20 @@ def _required_and_members(rep: Report, ctx: Any, cfgs: dict[str, CFG]) -> None:
         kw = next(k for k in c.keywords if k.arg == "required")
         acc = norm(c.args[0]) if c.args else ""
         want = {f"{acc}.required"} | {f"{o}.required" for o in over}
-        ok = isinstance(kw.value, ast.BoolOp) and isinstance(kw.value.op, ast.Or) and {norm(v) for v in kw.value.values} == want and len(want) == 2
+        ok = _disjuncts(kw.value, Locals(mca.node)) == want and len(want) == 2
         rep.check(ok, "R15.2", "_merge_common_attributes::required-disjunction", "merged requiredness is not `current.required or override.required`",
                   where(mca, kw.value), lhs=norm(kw.value), rhs=" or ".join(sorted(want)))
 
     pp = ix.func("model_property._process_properties")
-    cfg = cfg_of(pp, cfgs)
     reg = region(ix, pp)
-    loop, member, ref_entry, inline_entry = allof_arms(rep, pp, cfg)
+    nested = [h for h in ix.all_functions if h.parent is not None and _encloses(pp, h)]  # part of the region whatever they are called
+    funcs = _unique(reg)
+    # the three places the rules look at are found by what they do, in _process_properties or in a function it hands its state to:
+    #   host    = the function with the loop over the allOf members
+    #   builder = the function with the loop that turns the collected (name, schema) pairs into properties (property_from_data)
+    host, loop, member = _allof_loop(rep, pp, funcs)
+    cfg = cfg_of(host, cfgs)
+    ref_entry, inline_entry = allof_arms(rep, loop, member, cfg)
     in_loop = {id(x) for x in ast.walk(loop)}
 
     def arm(entry: object) -> set[int]:
@@ -721,65 +1028,67 @@ def _required_and_members(rep: Report, ctx: Any, cfgs: dict[str, CFG]) -> None:
 
     ref_arm, inline_arm = arm(ref_entry), arm(inline_entry)
 
-    def on_every_path(entry: object, stmts: list[ast.stmt | None]) -> bool:
-        return entry is not loop and bool(stmts) and (entry in stmts or cfg.every_path_passes(entry, loop, lambda n: n in stmts))
+    def on_every_path(entry: object, stmts: list[ast.stmt | None], adds_what: str = "") -> bool:
+        """every path from `entry` to the next member passes one of the statements; a path taken only when `adds_what` (what the
+        statement would add) is empty or absent need not: adding nothing is the same as not adding"""
+        return entry is not loop and bool(stmts) and not _bypasses(cfg, entry, loop, stmts, adds_what)
 
-    # roles (locals are found by what they hold, never by their spelling):
-    #   required set  = receiver of .update(<member>.required ...) / the set built from data.required
-    #   pending props = the sequence iterated by the loop that calls property_from_data
-    upd_calls = receivers(pp.node, "update", lambda a: f"{member}.required" in a)
-    upd = [stmt_of(pp.node, c) for _, c in upd_calls]
-    req_sets = {r for r, _ in upd_calls} | set(Locals(pp.node).bound_from(lambda v: "data.required" in v, "assign"))
-    rep.check(on_every_path(inline_entry, upd), "R15.2", "_process_properties::inline-required-unioned",
+    # roles (locals are found by what they hold, never by their spelling; a variable of _process_properties that a helper receives as an
+    # argument is the same variable under the parameter's name):
+    #   required set  = what <member>.required is added to / the set built from data.required
+    #   pending props = what the building loop iterates
+    upd_calls = _accumulations(host.node, f"{member}.required")
+    upd = [st for _, st in upd_calls]
+    req_sets = _in_caller(pp, host, {r for r, _ in upd_calls}) | set(Locals(pp.node).bound_from(lambda v: "data.required" in v, "assign"))
+    rep.check(on_every_path(inline_entry, upd, f"{member}.required"), "R15.2", "_process_properties::inline-required-unioned",
               "the `required` list of an inline allOf member is not added to required_set on every path (e.g. members without "
-              "`properties`)", where(pp, loop), lhs=[norm(u)[:60] for u in upd], rhs="on every path through the inline branch")
-    build_loops = [n for n in ast.walk(pp.node) if isinstance(n, ast.For) and any(call_name(c) == "property_from_data" for c in calls_in(n))]
+              "`properties`)", where(host, loop), lhs=[norm(u)[:60] for u in upd], rhs="on every path through the inline branch")
+    build_loops = [(g, n) for g in funcs for n in ast.walk(g.node) if isinstance(n, ast.For) and
+                   any(call_name(c).rsplit(".", 1)[-1] == "property_from_data" for c in calls_in(n))]
     rep.require(build_loops, "loop that builds the collected properties (property_from_data)")
-    pending = norm(build_loops[0].iter)
-    props_ext = [stmt_of(pp.node, c) for r, c in receivers(pp.node, "extend", lambda a: f"{member}.properties" in a) if r == pending]
-    rep.check(on_every_path(inline_entry, props_ext), "R15.3", "_process_properties::inline-properties-collected",
-              "inline member properties are not collected on every path", where(pp, loop), lhs=[norm(x)[:70] for x in props_ext],
-              rhs=f"{pending}.extend({member}.properties...) on every inline path")
+    builder, build_loop = build_loops[0]
+    pending = _in_caller(pp, builder, names_in(build_loop.iter))  # as _process_properties calls them
+    props_ext = [st for r, st in _accumulations(host.node, f"{member}.properties") if r in _seen_as(pp, host, pending)]
+    rep.check(on_every_path(inline_entry, props_ext, f"{member}.properties"), "R15.3", "_process_properties::inline-properties-collected",
+              "inline member properties are not collected on every path", where(host, loop), lhs=[norm(x)[:70] for x in props_ext],
+              rhs=f"{norm(build_loop.iter)}.extend({member}.properties...) on every inline path that has properties")
     # the required set reaches every property of the composed model: either each insertion consults it, or the final partition
     # promotes every property named in it (on a copy) before splitting into required / optional
-    inserters = {h.name for h in ix.all_functions if h.parent is not None and h.parent.qual == pp.qual and any(
-        isinstance(t, ast.Subscript) for a in ast.walk(h.node) if isinstance(a, ast.Assign) for t in a.targets)}
-    rep.require(inserters, "the local function of _process_properties that stores a property of the composed model")
-    adds = [n for n in ast.walk(pp.node) if isinstance(n, ast.Call) and call_name(n) in inserters]
-    rep.floor("property_insertions", len(adds), 2)
+    storing = {g.name for g in funcs + nested if g is not pp and _stores_outward(g)}
+    storing |= {g.name for g in funcs if g is not pp and any(call_name(c).rsplit(".", 1)[-1] in storing for c in calls_in(g.node))}
+    adds: list[tuple[Any, ast.AST]] = [(g, n) for g in _unique([pp, host, builder]) for n in _own_nodes(g.node) if
+                                       (isinstance(n, ast.Call) and call_name(n).rsplit(".", 1)[-1] in storing - {g.name}) or _is_store(n, set())]
+    rep.require(adds, "the place where _process_properties (or a function it calls) stores a property of the composed model")
+    rep.floor("property_insertions", len(adds), 1)
 
-    def in_req(e: ast.AST) -> bool:
-        return any(isinstance(c_, ast.Compare) and isinstance(c_.ops[0], ast.In) and norm(c_.comparators[0]) in req_sets for c_ in ast.walk(e))
-
-    promoted = False
-    for lp in [n for n in ast.walk(pp.node) if isinstance(n, ast.For)]:
-        split = next((s for s in lp.body if isinstance(s, ast.If) and norm(s.test) == f"{norm(lp.target)}.required"), None)
-        for s in lp.body:
-            if isinstance(s, ast.If) and in_req(s.test) and split is not None and lp.body.index(s) < lp.body.index(split):
-                for a in s.body:
-                    if isinstance(a, ast.Assign) and norm(a.targets[0]) == norm(lp.target) and "evolve(" in norm(a.value) and \
-                            "required=True" in norm(a.value):
-                        promoted = True
+    promoted = any(guarded and _value_is_used(pp, cfg_of(pp, cfgs), e) for e, guarded in
+                   _promotions(pp, reg + [h for h in nested if h not in reg], pp, req_sets, cfgs, 2))
+    builders = [(g, c) for g in funcs for c in calls_in(g.node) if call_name(c).rsplit(".", 1)[-1] == "property_from_data"]
+    dep = any(kw.arg == "required" and (_req_atoms(kw.value, _seen_as(pp, g, req_sets)) or any(
+        _req_atoms(v, _seen_as(pp, g, req_sets)) for n in names_in(kw.value) for v in Locals(g.node).values_of(n))) for g, c in builders for kw in c.keywords)
     n_ref_adds = 0
-    for a in adds:
-        arg = norm(a.args[0]) if a.args else ""
-        if id(stmt_of(pp.node, a)) in ref_arm:
+    for g, a in adds:
+        arg = norm(a.args[0]) if isinstance(a, ast.Call) and a.args else norm(a)[:60]
+        if id(stmt_of(g.node, a)) in ref_arm:
             n_ref_adds += 1
             rep.check(promoted, "R15.2", "_process_properties::reference-member-bypasses-required_set",
                       "properties taken from a referenced allOf member are inserted with the parent's requiredness and nothing promotes "
-                      "them later: a sibling member's `required: [name]` does not make them mandatory", where(pp, a), lhs=arg,
+                      "them later: a sibling member's `required: [name]` does not make them mandatory", where(g, a), lhs=arg,
                       rhs="required depends on required_set (at insertion or in the final partition)")
         else:
-            dep = any(isinstance(s, ast.Assign) and in_req(s.value) for s in ast.walk(pp.node))
-            rep.check(dep or promoted, "R15.2", "_process_properties::inline-insert-uses-required_set", "inserted property ignores required_set", where(pp, a))
+            rep.check(dep or promoted, "R15.2", "_process_properties::inline-insert-uses-required_set", "inserted property ignores required_set", where(g, a))
     # ---- R15.3 ---------------------------------------------------------------------------------------------------------------
-    rep.check(any("data.properties.items()" in norm(g.node) for g in reg), "R15.3", "_process_properties::own-properties",
-              "the schema's own properties are not collected", where(pp, pp.node))
+    # the schema's own properties: what the building loop iterates is computed from data.properties (directly, or by a helper that is handed data)
+    source = " <- ".join([resolved_text(build_loop.iter, builder.node)] + [resolved_text(ast.Name(id=p, ctx=ast.Load()), pp.node) for p in sorted(pending)] +
+                         [norm(c) for r, c in receivers(pp.node, "extend") + receivers(pp.node, "append") if r in pending])
+    own = "data.properties" in source or any(f"{h.name}(" in source and ".properties" in norm(h.node) for h in funcs if h is not pp)
+    rep.check(own, "R15.3", "_process_properties::own-properties", "the schema's own properties are not collected", where(pp, pp.node),
+              lhs=source[:120], rhs="the properties that are built include data.properties")
     # a Reference member contributes: every path that handles one and goes on to the next member inserts the parent's properties
     ins_stmts = [s for s in ast.walk(loop) if isinstance(s, ast.stmt) and id(s) in ref_arm and
-                 (any(x is a for a in adds for x in ast.walk(s)) if not isinstance(s, ast.If) else False)]
+                 (any(x is a for _, a in adds for x in ast.walk(s)) if not isinstance(s, ast.If) else False)]
     rep.check(n_ref_adds > 0 and on_every_path(ref_entry, ins_stmts) and bool(inline_arm), "R15.3", "_process_properties::reference-and-inline",
-              "allOf members of one kind are ignored", where(pp, loop), lhs={"reference": [norm(s)[:50] for s in ins_stmts][:2], "inline": len(inline_arm)},
+              "allOf members of one kind are ignored", where(host, loop), lhs={"reference": [norm(s)[:50] for s in ins_stmts][:2], "inline": len(inline_arm)},
               rhs="both kinds of member are handled")
     # ... with all of them: the required and the optional properties of the parent (reads outside the `is it processed yet` test)
     reads: set[str] = set()
@@ -788,7 +1097,7 @@ def _required_and_members(rep: Report, ctx: Any, cfgs: dict[str, CFG]) -> None:
         reads |= {n.attr for n in ast.walk(g.node) if isinstance(n, ast.Attribute) and isinstance(n.ctx, ast.Load) and id(n) not in guarded
                   and n.attr in ("required_properties", "optional_properties")}
     rep.check(reads == {"required_properties", "optional_properties"}, "R15.3", "_process_properties::parent-required-and-optional",
-              "only part of a referenced parent's properties is inherited", where(pp, loop), lhs=sorted(reads), rhs="required_properties and optional_properties")
+              "only part of a referenced parent's properties is inherited", where(host, loop), lhs=sorted(reads), rhs="required_properties and optional_properties")
 
 
 # ======================================================================================================================
